@@ -39,6 +39,8 @@ pub enum Inj {
     /// the target itself sends / closes / gets a retransmit tick
     Send { len: u32 },
     Close,
+    /// (verification hook) the write sequence counter is preset — the next records are sealed under these numbers
+    SetSeq(u64),
 }
 
 #[derive(Clone, Debug, PartialEq)]
@@ -58,6 +60,7 @@ impl Inj {
             Inj::Garbage { n, first } => format!("gb:{n}:{first}"),
             Inj::Send { len } => format!("sd:{len}"),
             Inj::Close => "cl".into(),
+            Inj::SetSeq(n) => format!("ws:{n}"),
         }
     }
     pub fn parse(s: &str) -> Inj {
@@ -90,6 +93,7 @@ impl Inj {
             "gb" => Inj::Garbage { n: n(1) as u16, first: n(2) as u8 },
             "sd" => Inj::Send { len: n(1) as u32 },
             "cl" => Inj::Close,
+            "ws" => Inj::SetSeq(n(1)),
             x => panic!("bad injection {x}"),
         }
     }
@@ -208,7 +212,7 @@ async fn materialise(inj: &Inj, s: &Sess, peer: &mut Endpoint) -> Vec<u8> {
             if !v.is_empty() { v[0] = *first; }
             v
         }
-        Inj::Send { .. } | Inj::Close => vec![],
+        Inj::Send { .. } | Inj::Close | Inj::SetSeq(_) => vec![],
     }
 }
 
@@ -281,6 +285,11 @@ pub async fn run_session(target_is_client: bool, script: &[(Inj, bool)]) -> Opti
                 else if !sent.is_empty() { fails.push(("send:records-emitted-by-rejected-send".into(), inj.text())); }
                 Obs { letter: target.letter(), state: target.state_text(), alive: !target.done, delivered: target.drain_app(), sent }
             }
+            Inj::SetSeq(n) => {
+                target.dtls.verif_set_write_seq(*n);
+                input.push_str(&format!(" ws,{n}"));
+                Obs { letter: target.letter(), state: target.state_text(), alive: !target.done, delivered: target.drain_app(), sent: vec![] }
+            }
             Inj::Close => {
                 target.dtls.close();
                 let sent = target.pump().await;
@@ -303,6 +312,7 @@ pub async fn run_session(target_is_client: bool, script: &[(Inj, bool)]) -> Opti
                         fails.push((format!("rec:{cls}:delivered-unauthenticated"), inj.text()));
                     }
                 }
+                if *target.conn.remote_addr.read() != genuine { fails.push((format!("rec:{cls}:destination-moved-to-the-source-of-a-datagram"), inj.text())); }
                 let after = target.letter();
                 if after != before && !auth.iter().any(|(ct, _)| *ct == 21 || *ct == 22) {
                     fails.push((format!("rec:{cls}:state-{before}-to-{after}-unauthenticated"), inj.text()));
@@ -398,6 +408,9 @@ fn directed() -> Vec<Vec<(Inj, bool)>> {
                         (Inj::WrongKey { ct, epoch: ep.max(1), var: 0, which: 0 }, third)]);
         } }
     }
+    // sequence numbers far from 0 (preset by a hook): sends across 2^32 and up to the last 48-bit value, after a few ordinary ones
+    v.push(vec![(Inj::Send { len: 2401 }, false), (Inj::SetSeq((1 << 32) - 2), false), (Inj::Send { len: 5000 }, false), (Inj::Captured { len: 16, mutation: Mut::None }, false)]);
+    v.push(vec![(Inj::Send { len: 100 }, false), (Inj::SetSeq((1 << 40) + 5), false), (Inj::Send { len: 1201 }, false), (Inj::SetSeq((1 << 48) - 3), false), (Inj::Send { len: 2400 }, false)]);
     // authenticated close_notify closes; authenticated bad Finished fails; authenticated good Finished re-connects
     v.push(vec![(Inj::Sealed { ct: 21, epoch: 1, var: 0, seq: 9 }, false), (Inj::Captured { len: 16, mutation: Mut::None }, false)]);
     v.push(vec![(Inj::Sealed { ct: 22, epoch: 1, var: 0, seq: 9 }, false), (Inj::Captured { len: 16, mutation: Mut::None }, false)]);
@@ -699,6 +712,12 @@ pub fn run(args: &Args) {
         let mut scripts = vec![];
         for (fc, kinds) in [(false, vec![2u8, 11, 12, 14, 200, 20]), (true, vec![16u8, 200, 20])] {
             for k in kinds { for ct in [23u8, 21, 22, 20] { scripts.push(Script { ce: 'o', se: 'n', rules: vec![Rule { from_client: fc, typ: k, act: Act::PreInject(ct) }] }); } }
+        }
+        // the same kinds of clear-text record from a THIRD source address (handshake phase × foreign address): as good as absent —
+        // in particular the transport keeps sending to its peer (oracle rec:handshake-phase:third-party-record-disturbed-the-handshake)
+        for (fc, k, ct) in [(false, 2u8, 23u8), (false, 14, 23), (false, 200, 23), (false, 200, 21), (false, 200, 22), (false, 20, 23), (false, 20, 21),
+                            (true, 16, 23), (true, 200, 23), (true, 200, 21), (true, 20, 22)] {
+            scripts.push(Script { ce: 'o', se: 'n', rules: vec![Rule { from_client: fc, typ: k, act: Act::PreInject3(ct) }] });
         }
         // close() at every stage of the handshake (before keys; between key derivation and Connected, where the alert
         // must take the context's sequence number and not reuse the Finished record's): nonce oracle over all sealed records
